@@ -103,6 +103,8 @@ struct Relay {
     from_a: parking_lot::Mutex<Vec<Cap>>,
     /// the latest media datagram B sent (material for a forged one)
     last_b_media: parking_lot::Mutex<Option<Vec<u8>>>,
+    /// > 0: let that many RTP datagrams of B pass, then drop one (a hole in what A receives)
+    drop_b_after: std::sync::atomic::AtomicI64,
 }
 
 impl Relay {
@@ -134,6 +136,18 @@ impl Relay {
                     self.from_a.lock().push(Cap { before_keys: holding, data: d.clone() });
                 } else {
                     *self.last_b_media.lock() = Some(d.clone());
+                    if k == "rtp" {
+                        let left = self.drop_b_after.load(Ordering::SeqCst);
+                        if left > 0 {
+                            self.drop_b_after.store(left - 1, Ordering::SeqCst);
+                            if left == 1 {
+                                self.drop_b_after.store(-1, Ordering::SeqCst); // the next one is the hole
+                            }
+                        } else if left == -1 {
+                            self.drop_b_after.store(0, Ordering::SeqCst);
+                            continue;
+                        }
+                    }
                 }
             }
             if k == "dtls" && holding {
@@ -170,6 +184,13 @@ fn cfg(label: &str, mode: TransportMode) -> RtcConfiguration {
     c.transport_mode = mode;
     c.bind_ip = Some("127.0.0.1".into());
     c.disable_ipv6 = true;
+    // generic NACK on the audio stream: the sender keeps a retransmission buffer and answers NACKs, the receiver
+    // reports gaps (the feedback / retransmission paths above the transport become egress sources)
+    let mut caps = rustrtc::config::MediaCapabilities::default();
+    for a in caps.audio.iter_mut() {
+        a.rtcp_fbs = vec!["nack".to_string()];
+    }
+    c.media_capabilities = Some(caps);
     c
 }
 
@@ -207,6 +228,8 @@ struct End {
     got: Arc<parking_lot::Mutex<Vec<Vec<u8>>>>,
     obs: Arc<Obs>,
     _track: Arc<rustrtc::media::track::SampleStreamTrack>,
+    /// the track media from the peer arrives on (once known)
+    rx_track: Arc<parking_lot::Mutex<Option<Arc<dyn MediaStreamTrack>>>>,
     ts: u32,
 }
 
@@ -216,13 +239,16 @@ impl End {
         let (src, track, fb) = rustrtc::media::track::sample_track(MediaKind::Audio, 64);
         let _ = pc.add_track(track.clone(), codec());
         let got = Arc::new(parking_lot::Mutex::new(Vec::new()));
+        let rx_track: Arc<parking_lot::Mutex<Option<Arc<dyn MediaStreamTrack>>>> = Default::default();
         let pc2 = pc.clone();
         let got2 = got.clone();
+        let rxt = rx_track.clone();
         tokio::spawn(async move {
             while let Some(ev) = pc2.recv().await {
                 if let PeerConnectionEvent::Track(t) = ev {
                     if let Some(r) = t.receiver() {
                         let tr = r.track();
+                        *rxt.lock() = Some(tr.clone() as Arc<dyn MediaStreamTrack>);
                         let got = got2.clone();
                         tokio::spawn(async move {
                             while let Ok(s) = tr.recv().await {
@@ -235,7 +261,7 @@ impl End {
                 }
             }
         });
-        End { pc, src, fb, got, obs: Arc::new(Obs::default()), _track: track, ts: 0 }
+        End { pc, src, fb, got, obs: Arc::new(Obs::default()), _track: track, rx_track, ts: 0 }
     }
     fn push(&mut self, payload: Vec<u8>) -> bool {
         self.ts = self.ts.wrapping_add(960);
@@ -300,6 +326,7 @@ impl Rig {
                 held: Default::default(),
                 from_a: Default::default(),
                 last_b_media: Default::default(),
+                drop_b_after: Default::default(),
             });
             let ra_addr = relay.ra.local_addr().unwrap();
             let rb_addr = relay.rb.local_addr().unwrap();
@@ -377,7 +404,7 @@ impl Rig {
                 ("RTP/AVP", String::new())
             };
             let answer = format!(
-                "v=0\r\no=- 1 1 IN IP4 127.0.0.1\r\ns=-\r\nc=IN IP4 127.0.0.1\r\nt=0 0\r\nm=audio {port} {proto} {pt}\r\n{crypto}a=ssrc:3405691582 cname:x\r\na=sendrecv\r\n"
+                "v=0\r\no=- 1 1 IN IP4 127.0.0.1\r\ns=-\r\nc=IN IP4 127.0.0.1\r\nt=0 0\r\nm=audio {port} {proto} {pt}\r\n{crypto}a=rtcp-mux\r\na=rtcp-fb:{pt} nack\r\na=ssrc:3405691582 cname:x\r\na=sendrecv\r\n"
             );
             let from_a = Arc::new(parking_lot::Mutex::new(Vec::new()));
             let keyed = Arc::new(AtomicBool::new(false));
@@ -475,6 +502,72 @@ impl Rig {
         p.extend_from_slice(format!("{tag}:{k:02}:").as_bytes());
         p.extend([0x5Au8; 40]);
         RtpPacket::new(RtpHeader::new(111, self.in_seq, 960 * self.in_seq as u32, 3405691582), p)
+    }
+
+    /// A's receive keys (= its peer's transmit keys) and profile, learnt from a datagram A sent (WebRtc) or from the
+    /// harness's own SDES session.
+    fn peer_rtcp(&mut self, pk: &[RtcpPacket]) -> Option<Vec<u8>> {
+        let mut raw = marshal_rtcp_packets(pk).ok()?;
+        match &mut self.net {
+            Net::Raw { peer_tx, .. } => {
+                if let Some(s) = peer_tx {
+                    s.protect_rtcp(&mut raw).ok()?;
+                }
+                Some(raw)
+            }
+            Net::Pair { .. } => {
+                let caps = self.captured();
+                let mut followers = Vec::new();
+                let mut role = None;
+                for c in caps.iter().filter(|c| !c.before_keys) {
+                    if let ('p', d) = self.classify(&mut followers, &c.data) {
+                        role = Some((d["key"].as_u64()? as usize, d["profile"].as_str()?.to_string()));
+                        break;
+                    }
+                }
+                let (ki, prof) = role?;
+                let prof = PROFILES.into_iter().find(|p| format!("{p:?}") == prof)?;
+                let mut k = self.a_tx.get(ki ^ 1)?.clone();
+                if prof == SrtpProfile::AeadAes128Gcm {
+                    k.master_salt.truncate(12);
+                }
+                let mut s = SrtpSession::new(prof, k, SrtpKeyingMaterial::new(vec![0; 16], vec![0; 14])).ok()?;
+                // (an index far above what B itself has used)
+                for _ in 0..50 {
+                    let mut scratch = marshal_rtcp_packets(pk).ok()?;
+                    s.protect_rtcp(&mut scratch).ok()?;
+                }
+                s.protect_rtcp(&mut raw).ok()?;
+                Some(raw)
+            }
+        }
+    }
+
+    /// One valid media packet from the peer (WebRtc: B pushes a sample; raw: protected under the a=crypto key).
+    async fn valid_media(&mut self, tag: &str, k: usize) {
+        let pk = self.in_packet(tag, k);
+        match &mut self.net {
+            Net::Pair { b, .. } => {
+                b.push(pk.payload.to_vec());
+            }
+            Net::Raw { peer_tx, sock, a_addr, .. } => {
+                let d = match peer_tx {
+                    Some(s) => {
+                        let mut out = vec![0u8; s.protected_rtp_len(&pk)];
+                        let _ = s.protect_rtp(&pk, &mut out);
+                        out
+                    }
+                    None => pk.marshal().unwrap(),
+                };
+                if let Some(a) = a_addr {
+                    let _ = sock.send_to(&d, *a).await;
+                }
+            }
+        }
+    }
+
+    fn count(&self, what: &str) -> usize {
+        self.captured().iter().filter(|c| kind(&c.data) == what).count()
     }
 
     async fn step(&mut self, op: &str, k: usize) {
@@ -597,6 +690,82 @@ impl Rig {
                     wait_until(1500, || got.lock().len() > n0).await;
                 }
             }
+            "InValidNack" => {
+                // an authenticated NACK for what A has sent: the retransmission path is an egress source
+                if self.keyed && !self.closed && self.count("rtp") == 0 {
+                    let mut p = OUT_MARK.to_vec();
+                    p.extend_from_slice(format!("push:{k:02}:").as_bytes());
+                    p.extend([0xA7u8; 40]);
+                    self.a.push(p);
+                    let me = &*self;
+                    wait_until(1500, || me.count("rtp") > 0).await;
+                }
+                let sent: Vec<(u32, u16)> = self
+                    .captured()
+                    .iter()
+                    .filter(|c| kind(&c.data) == "rtp" && c.data.len() >= 12)
+                    .map(|c| (u32::from_be_bytes(c.data[8..12].try_into().unwrap()), u16::from_be_bytes([c.data[2], c.data[3]])))
+                    .collect();
+                if let Some((ssrc, _)) = sent.first().copied() {
+                    let seqs: Vec<u16> = sent.iter().filter(|x| x.0 == ssrc).map(|x| x.1).collect();
+                    let pk = vec![
+                        RtcpPacket::ReceiverReport(ReceiverReport { sender_ssrc: 3405691582, report_blocks: vec![] }),
+                        RtcpPacket::GenericNack(GenericNack { sender_ssrc: 3405691582, media_ssrc: ssrc, lost_packets: seqs }),
+                    ];
+                    let n0 = self.count("rtp");
+                    if let Some(d) = self.peer_rtcp(&pk) {
+                        self.to_a(&d).await;
+                        if self.keyed && !self.closed {
+                            let me = &*self;
+                            wait_until(600, || me.count("rtp") > n0).await;
+                        }
+                    }
+                }
+            }
+            "Gap" => {
+                // valid media with a hole: the receiver's NACK generation is an egress source
+                let n0 = self.count("rtcp");
+                if let Net::Pair { relay, .. } = &self.net {
+                    relay.drop_b_after.store(1, Ordering::SeqCst);
+                }
+                for i in 0..4 {
+                    if i == 1 {
+                        if let Net::Raw { .. } = &self.net {
+                            self.in_seq = self.in_seq.wrapping_add(2);
+                        }
+                    }
+                    self.valid_media("valid", k).await;
+                    tokio::time::sleep(Duration::from_millis(5)).await;
+                }
+                if self.keyed && !self.closed {
+                    let me = &*self;
+                    wait_until(600, || me.count("rtcp") > n0).await;
+                }
+            }
+            "KeyFrame" => {
+                // the application asks for a key frame on the received track: PLI / FIR generation is an egress source
+                let t = self.a.rx_track.lock().clone();
+                if let Some(t) = t {
+                    let n0 = self.count("rtcp");
+                    let _ = tokio::time::timeout(Duration::from_millis(200), t.request_key_frame()).await;
+                    if self.keyed && !self.closed {
+                        let me = &*self;
+                        wait_until(400, || me.count("rtcp") > n0).await;
+                    }
+                }
+            }
+            "Report" => {
+                // periodic sender reports (first one 3 s after the sender started, only once media has been sent)
+                let mut p = OUT_MARK.to_vec();
+                p.extend_from_slice(format!("push:{k:02}:").as_bytes());
+                p.extend([0xA8u8; 40]);
+                let n0 = self.count("rtcp");
+                self.a.push(p);
+                if self.keyed && !self.closed {
+                    let me = &*self;
+                    wait_until(3600, || me.count("rtcp") > n0).await;
+                }
+            }
             "Keys" => self.keys().await,
             "Close" => {
                 let n0 = self.captured().len();
@@ -681,9 +850,14 @@ impl Rig {
                         None => continue,
                     }
                 };
+                let mut types: Vec<&'static str> = vec![];
                 let ok = if is_rtcp {
                     let mut b = d.to_vec();
-                    matches!(catch(|| v.unprotect_rtcp(&mut b)), Ok(Ok(())))
+                    let ok = matches!(catch(|| v.unprotect_rtcp(&mut b)), Ok(Ok(())));
+                    if ok {
+                        types = rtcp_types(&b);
+                    }
+                    ok
                 } else {
                     match SrtpPacket::parse(bytes::BytesMut::from(d)) {
                         Ok(sp) => matches!(catch(|| v.unprotect_rtp(sp)), Ok(Ok(_))),
@@ -694,13 +868,33 @@ impl Rig {
                     if leaks {
                         return ('c', json!({"why": "authenticates but the plaintext is visible"}));
                     }
-                    return ('p', json!({"profile": format!("{prof:?}"), "key": ki, "rtcp": is_rtcp}));
+                    return ('p', json!({"profile": format!("{prof:?}"), "key": ki, "rtcp": is_rtcp, "types": types}));
                 }
               }
             }
         }
         ('c', json!({"why": if leaks { "plaintext visible" } else { "does not authenticate under A's transmit keys" },
+                     "types": if is_rtcp { rtcp_types(d) } else { vec![] },
                      "rtcp": is_rtcp, "len": d.len(), "keys_known": self.a_tx.len(), "first": format!("{:02x?}", &d[..d.len().min(16)])}))
+    }
+}
+
+/// Kinds of the RTCP packets in a plaintext compound.
+fn rtcp_types(b: &[u8]) -> Vec<&'static str> {
+    match rustrtc::rtp::parse_rtcp_packets(b, None) {
+        Ok(pk) => pk
+            .iter()
+            .map(|p| match p {
+                RtcpPacket::SenderReport(_) => "sr",
+                RtcpPacket::ReceiverReport(_) => "rr",
+                RtcpPacket::GenericNack(_) => "nack",
+                RtcpPacket::PictureLossIndication(_) => "pli",
+                RtcpPacket::FullIntraRequest(_) => "fir",
+                RtcpPacket::Goodbye(_) => "bye",
+                _ => "other",
+            })
+            .collect(),
+        Err(_) => vec![],
     }
 }
 
@@ -736,6 +930,8 @@ struct Stats {
     diverged: u64,
     inconclusive: u64,
     retries: u64,
+    /// egress sources seen on the observed endpoint's wire
+    src: std::collections::BTreeMap<String, u64>,
 }
 
 async fn run_edge(case: &Value, idx: usize, out: &mut NdjsonOut, stats: &mut Stats) {
@@ -790,6 +986,14 @@ async fn run_edge_once(case: &Value, idx: usize, out: &mut NdjsonOut, stats: &mu
         } else {
             stats.clear += 1;
         }
+        if let Some(ts) = detail["types"].as_array() {
+            for t in ts {
+                *stats.src.entry(format!("rtcp:{}", t.as_str().unwrap_or("?"))).or_insert(0) += 1;
+            }
+        }
+        if kind(&c.data) == "rtp" {
+            *stats.src.entry("rtp".into()).or_insert(0) += 1;
+        }
         if i >= before.0 && !last_w.contains(cls) {
             last_w.push(cls);
         }
@@ -810,8 +1014,10 @@ async fn run_edge_once(case: &Value, idx: usize, out: &mut NdjsonOut, stats: &mu
             }
         }
         if rtx > 0 {
+            *stats.src.entry("rtp:retransmission".into()).or_insert(0) += rtx;
             stats.deliveries += rtx;
-            if required {
+            // (legitimate when the scenario also sent an authenticated NACK)
+            if required && !ops.iter().any(|o| o == "InValidNack") {
                 divs.push(json!({"rule": "NoClearIngress", "field": "sink", "sink": "nack-retransmission", "class": "clear", "count": rtx}));
             }
         }
@@ -875,7 +1081,10 @@ async fn run_edge_once(case: &Value, idx: usize, out: &mut NdjsonOut, stats: &mu
     if inconclusive {
         stats.inconclusive += 1;
     }
-    if exp_dx == 1 && !inconclusive && (last_w != exp_w || last_d != exp_d) {
+    // (with NACK feedback negotiated the receiver answers holes in what it gets on its own: what an inbound step puts
+    //  on the wire is not part of the exact expectation, only what it delivers)
+    let wire_exact = matches!(ops.last().map(|s| s.as_str()), Some("Push") | Some("Raw") | Some("Close") | Some("Keys"));
+    if exp_dx == 1 && !inconclusive && ((wire_exact && last_w != exp_w) || last_d != exp_d) {
         divs.push(json!({"rule": "EXT", "field": "exact", "expected": {"wire": exp_w, "delivered": exp_d},
                          "observed": {"wire": last_w, "delivered": last_d}}));
     }
@@ -940,7 +1149,7 @@ fn main() {
         }
         out.push(&json!({"type": "summary", "behaviours": stats.scenarios, "steps": stats.steps, "datagrams": stats.datagrams,
                          "protected": stats.protected, "clear": stats.clear, "deliveries": stats.deliveries,
-                         "diverged": stats.diverged, "inconclusive": stats.inconclusive, "retries": stats.retries}));
+                         "diverged": stats.diverged, "inconclusive": stats.inconclusive, "retries": stats.retries, "sources": stats.src}));
         out.finish();
     });
     std::process::exit(0);
